@@ -185,10 +185,10 @@ Inductive case :=
 
 Definition pool_model (stale data : list N) : Z * list N :=
   let ev := [BGet 0 (length stale) None; BAppend 0 stale; BPut 0; BGet 1 0 (Some 0)] in
-  match brun 0 (binit (fun _ _ => 0%N)) ev with
+  match brun Fixed 0 (binit (fun _ _ => 0%N)) ev with
   | Some s =>
       let l := match b_held s 1 with Some sl => Z.of_nat (sl_len sl) | None => (-1)%Z end in
-      match bstep 0 s (BAppend 1 data) with
+      match bstep Fixed 0 s (BAppend 1 data) with
       | Some s' => (l, visible s' 1)
       | None => (l, [])
       end
@@ -207,7 +207,7 @@ Definition oracle (c : case) : bool :=
   end.
 
 (* the pool model on a recorded sequence: what the acting user sees after each operation
-   (C08_byteslicepool_no_carry: independent of sync.Pool's choices as long as nobody shrinks) *)
+   (C08_byteslicepool_exact: independent of sync.Pool's choices as long as nobody shrinks) *)
 Definition bev_of (o : pop) : bevent :=
   match o with
   | PGet u c => BGet (Z.to_nat u) (Z.to_nat c) None
